@@ -836,6 +836,12 @@ type ReCase struct {
 	Nested int  `json:"nested"` // how many nested calls it makes (1..3)
 	Via    bool `json:"via_call"` // nested call through vm.Call(name) instead of vm.Func(value)
 	InLoop bool `json:"in_loop"`
+	// Outer: afterwards the host calls a script function this many times on the same VM (Call); that function sorts a
+	// slice with a comparison function of the script (the bundled native calls back through the VM), calls the
+	// native above, and then uses its own parameters and locals. Root: the native's nested calls are made on the VM
+	// the host holds instead of the one handed to the callback.
+	Outer int  `json:"outer,omitempty"`
+	Root  bool `json:"root,omitempty"`
 }
 
 func checkReentrant(c *ReCase) (f *ev.Failure) {
@@ -857,10 +863,14 @@ func checkReentrant(c *ReCase) (f *ev.Failure) {
 			var rets []goatlang.Value
 			var err error
 			arg := goatlang.Int(a.Int() + k)
+			on := v
+			if c.Root {
+				on = vm.VM
+			}
 			if c.Via {
-				rets, err = v.Call("main.leaf", 1, arg)
+				rets, err = on.Call("main.leaf", 1, arg)
 			} else {
-				rets, err = v.Func(fn, 1, arg)
+				rets, err = on.Func(fn, 1, arg)
 			}
 			if err != nil {
 				panic(err)
@@ -911,6 +921,26 @@ func checkReentrant(c *ReCase) (f *ev.Failure) {
 			return mk(fmt.Sprintf("after its nested calls the native sees the arguments [%s], the script passed [%s] (type:value)", got, strings.Join(wantSeen, ",")), src)
 		}
 	}
+	if c.Outer > 0 {
+		src2 := "import \"fmt\"\nimport \"host\"\nimport \"golang.org/x/exp/slices\"\nfunc less(a, b int) bool {\n\treturn a < b\n}\n" +
+			"func outer(tag string, xs []int, k int) int {\n\tt := k * 2\n\tslices.SortFunc(xs, less)\n\tr := " + call + "\n\tfmt.Println(tag, xs, k, t)\n\treturn r + t + xs[0]\n}\n"
+		if r := vm.Eval(nil, src2, goat.DefaultBudget); r.Failed() {
+			return mk("defining outer failed: "+r.ErrString(), src2)
+		}
+		for n := 0; n < c.Outer; n++ {
+			xs := goatlang.NewSlice(goatlang.TypeInt32, []goatlang.Value{goatlang.Int(3), goatlang.Int(1), goatlang.Int(2)})
+			r := vm.Call("main.outer", 1, goat.DefaultBudget, goatlang.String("best"), xs, goatlang.Int(10))
+			if r.Failed() || len(r.Rets) != 1 {
+				return mk(fmt.Sprintf("host Call #%d of outer failed: %s", n+1, r.ErrString()), src2)
+			}
+			if got, want := r.Stdout, "best [1 2 3] 10 20\n"; got != want {
+				return mk(fmt.Sprintf("host Call #%d of outer on the same VM: after sorting with a script comparator and calling the native, outer sees its parameters and locals as %q, expected %q", n+1, got, want), src2)
+			}
+			if got, want := r.Rets[0].Int(), sum*1000+34+20+1; got != want {
+				return mk(fmt.Sprintf("host Call #%d of outer returned %d, expected %d", n+1, got, want), src2)
+			}
+		}
+	}
 	return nil
 }
 
@@ -921,7 +951,7 @@ func TestReentrant(t *testing.T) {
 		for nested := 1; nested <= 3; nested++ {
 			for _, via := range []bool{false, true} {
 				for _, loop := range []bool{false, true} {
-					c := &ReCase{Extra: extra, Nested: nested, Via: via, InLoop: loop}
+					c := &ReCase{Extra: extra, Nested: nested, Via: via, InLoop: loop, Outer: (extra + nested) % 4, Root: (extra+nested)%2 == 1 && loop}
 					r.Eval(1)
 					r.NontrivialN(1)
 					r.Class("reentrant_native")
